@@ -51,12 +51,9 @@ def build():
     The Coq build continues past a broken file (make -k): whether a breakage concerns this
     property is decided afterwards by compiling its own Props file and tie files."""
     logs = []
-    try:
-        import translators
-        changed = translators.regenerate()
-        logs.append('generated fragments: %s' % (', '.join(changed) if changed else 'unchanged'))
-    except Exception as e:   # a translator that meets an unsupported construct is a broken tie
-        return False, 'translator failed: %s\n%s' % (e, traceback.format_exc()), 'translator'
+    import translators
+    changed = translators.regenerate()
+    logs.append('generated fragments: %s' % (', '.join(changed) if changed else 'unchanged'))
     rc, out = sh('make -C %s setup JOBS=16 2>&1 | tail -60' % VERIF)
     logs.append(out[-1500:])
     if not os.path.exists(core.DRIVER):
@@ -67,7 +64,11 @@ def build():
 def check_ties(prop):
     """Compile the tie files this property depends on. Returns a list of broken tie descriptions."""
     broken = []
+    import translators
     for t in TIES.get(prop, []):
+        if t in translators.FAILED:
+            broken.append('translator for gen/%s.v met a construct it does not support (fail-closed): %s' % (t, translators.FAILED[t]))
+            continue
         vo = os.path.join(VERIF, 'coq', 'Tie', t + '.vo')
         srcs = [os.path.join(VERIF, 'coq', 'Tie', t + '.v'), os.path.join(VERIF, 'coq', 'gen', t + '.v')]
         if os.path.exists(vo) and all(os.path.exists(x) and os.path.getmtime(vo) >= os.path.getmtime(x) for x in srcs):
